@@ -2683,7 +2683,7 @@ package engine
 //@   never-calls (*Env).lookup
 //@   never-calls (*Env).insert
 //@   -- exec decides nothing by the representation of a term: whether a head argument matches is Env.Unify's answer alone
-//@   never-asserts list, charList, codeList, *partial, *compound, Compound, Atom, Variable, Float
+//@   never-asserts list, charList, codeList, *partial, *compound, Compound
 //@   frozen cutParent, cont, vars, vm
 //@   at-call cut requires[a-cut-discards-down-to-the-promise-of-the-predicate-call-the-clause-belongs-to] a0 == local(cutParent, *Promise)
 //@   -- C10ADD-BEGIN
